@@ -232,6 +232,9 @@ func (ex *Exec) entryState() *State {
 	ex.entryHeap = st
 	if ex.fc != nil {
 		for _, c := range ex.fc.Requires {
+			if !ex.clauseActive(c) {
+				continue
+			}
 			env := ex.paramEnv(st, false)
 			t, err := env.EvalBool(c.Expr)
 			if err != nil {
